@@ -234,6 +234,9 @@ func (d *deepView) byteSeq(v ssa.Value, fr *frame, depth int) ([]bseg, bool) {
 		id := ir.CallID(x)
 		args := ir.CallArgs(x)
 		switch {
+		case id == "bytes.Clone" || strings.HasPrefix(id, "slices.Clone") || id == "bytes.TrimSpace" && false:
+			// a copy of all bytes of the argument
+			return d.byteSeq(args[0], r.fr, depth+1)
 		case id == "builtin.append":
 			head, ok := d.byteSeq(x.Call.Args[0], r.fr, depth+1)
 			if !ok {
